@@ -261,6 +261,12 @@ ALIAS_CASES = [
      '[%{1: "p"}, [1], nil, %{2: "q"}, %{1: "p", 2: "q"}, %{1: "p", 2: "s", 3: "r"}]'),
     ("a := %{[1]: 'p}\nb := %{[2]: 'q}\nc := %{**a, **b}\n", "[a, a.len, b, c, c.len]",
      '[%{[1]: "p"}, 1, %{[2]: "q"}, %{[1]: "p", [2]: "q"}, 2]'),
+    # keys that are == although their kinds differ (a value and a `bear` descendant of it): still ONE key
+    ("a := [1, 2].bear({z: 0})\nm := %{[1, 2]: 'lit, a: 'child, 'x: 0}\nm2 := %{a: 'child, [1, 2]: 'lit}\nm3 := %{**%{[1, 2]: 1}, **%{a: 2}}\n",
+     "[[1, 2] == a, m.len, m.keys.len, m[[1, 2]], m[a], m.values, m2.len, m2[[1, 2]], m2[a], m3.len, m3.values]",
+     '[true, 2, 2, "lit", "lit", [0, "lit"], 1, "child", "child", 1, [1]]'),
+    ("r := (1:3).bear({w: 1})\nm4 := %{(1:3): 'lit, r: 'child}\no := {k: 1}.bear({k: 1})\nm5 := %{{k: 1}: 'lit, o: 'child}\n",
+     "[(1:3) == r, m4.len, m4.values, {k: 1} == o, m5.len, m5.values]", '[true, 1, ["lit"], true, 1, ["lit"]]'),
     ("a := {x: 1, _h: 2}\nc := {_h: 5, **a, **a}\n", "[a, c, c.keys, c.values(private?: true)]",
      '[{"_h": 2, "x": 1}, {"_h": 5, "x": 1}, ["x"], [1, 5]]'),
 ]
